@@ -473,3 +473,42 @@ V('C16-len-from-other-node', 'C16', WK,
 V('C16-benign', 'C16', WK,
   "    # parse a single node and then we'll verify that it was the correct\n    # environment node\n    parser = parsers.LatexSingleNodeParser()",
   "    # parse a single node, then verify that it was the correct\n    # environment node\n    parser = parsers.LatexSingleNodeParser()", 'SILENT')
+
+
+# ----------------------------------------------------------------------- C11
+TRF = 'pylatexenc/latexnodes/_tokenreader.py'
+V('C11-revert-D2-zero-width', 'C11', TRF,
+  """                    arg=s[pos],
+                    pos=pos,
+                    pos_end=pos+1,
+                    pre_space=pre_space
+                ),
+                recovery_token_at_pos=pos+1""",
+  """                    arg='',
+                    pos=pos,
+                    pos_end=pos,
+                    pre_space=pre_space
+                ),
+                recovery_token_at_pos=len(s)""", 'R11a', 'D2a: zero-width recovery token')
+V('C11-revert-D2-peek-moves', 'C11', TRF,
+  """                return exc.recovery_token_placeholder""",
+  """                self.move_to_pos_chars(exc.recovery_token_at_pos)
+                return exc.recovery_token_placeholder""", 'R11b', 'D2b: peek_token moves the reader')
+V('C11-move-to-token-no-prespace', 'C11', TRF,
+  "            new_pos = tok.pos - len(tok.pre_space)\n", "            new_pos = tok.pos - 1\n", 'R11d')
+V('C11-postspace-unpaired', 'C11', TRF,
+  """                post_space_pos_end = post_space_pos + newline_rel_pos
+                post_space = post_space[:newline_rel_pos]
+
+            posi = post_space_pos_end""",
+  """                post_space = post_space[:newline_rel_pos]
+
+            posi = post_space_pos_end""", 'R11e')
+V('C11-next-token-skips', 'C11', 'pylatexenc/latexnodes/_tokenreaderbase.py',
+  "        tok = self.peek_token(parsing_state=parsing_state)\n        self.move_past_token(tok)\n        return tok",
+  "        tok = self.peek_token(parsing_state=parsing_state)\n        self.move_past_token(tok)\n        return self.peek_token(parsing_state=parsing_state)", 'R11c')
+V('C11-eos-drops-space', 'C11', TRF,
+  "            raise LatexWalkerEndOfStream(final_space=pre_space)",
+  "            raise LatexWalkerEndOfStream()", 'R11g')
+V('C11-benign', 'C11', TRF,
+  "        # inspect the next character --\n", "        # inspect the next char --\n", 'SILENT')
